@@ -16,3 +16,16 @@ def norm_truth(v: str) -> str:
         if v == s:
             return "false()"
     return v
+
+# C05/C13: documented survey logic columns: (spellings..., bind attribute they populate)
+LOGIC_COLUMNS = [
+    (("relevant", "relevance", "bind::relevant"), "relevant"),
+    (("required", "bind::required", "Required"), "required"),
+    (("read_only", "readonly", "bind::readonly"), "readonly"),
+    (("constraint", "bind::constraint", "Constraint"), "constraint"),
+    (("calculation", "calculate", "bind::calculate"), "calculate"),
+    (("constraint_message", "constraining_message", "bind::jr:constraintMsg"), "jr:constraintMsg"),
+    (("required_message", "requiredmsg", "bind::jr:requiredMsg"), "jr:requiredMsg"),
+]
+# attributes whose values get the yes/no -> true()/false() normalisation
+TRUTH_NORMALISED = ("relevant", "required", "readonly", "constraint", "calculate")
